@@ -74,6 +74,21 @@ CLAIMED = {
         "CLIENT_HANDSHAKE_START row is judged differentially (any input there behaves like the documented b'').",
         "DESIGN.md 7 C11",
     ),
+    "C07": (
+        "exploration",
+        "deterministic simulation with a key-holding forger: after a real handshake the peer is silenced and seeded "
+        "histories of boundary-valued stream/flow-control frames are judged frame by frame against a small reference "
+        "model of receive-side accounting; buffers measured after every step",
+        "The forger continues in the silenced peer's name with STREAM / RESET_STREAM / *_BLOCKED / MAX_* / STOP_SENDING "
+        "frames at limit-1, limit, limit+1 and 2^62-1 on all four stream types plus CRYPTO / PATH_CHALLENGE / "
+        "NEW_CONNECTION_ID floods; a reference model fed only with what the target advertised on the wire predicts the "
+        "acceptable outcomes (no close, or the matching error code); reassembly buffers, queued challenges, stored peer "
+        "CIDs and pending retirements are measured after every step.",
+        "Trusted: wire/ and the reference model. When several errors apply any of them is accepted; frames for a stream "
+        "the endpoint has completed and forgotten may be ignored; a FIN/reset below data already received may but need "
+        "not be rejected (the property names only disagreement with an already fixed final size).",
+        "DESIGN.md 7 C07",
+    ),
     "C09": (
         "exploration",
         "deterministic simulation with fault injection: seeded close()/fatal-frame/peer-crash/blackout/stall/late-timer "
